@@ -286,3 +286,57 @@ Proof.
   exists cms, sms. split; [reflexivity|]. split; [reflexivity|].
   vm_compute in E1. inversion E1; subst. vm_compute. auto.
 Qed.
+
+(* ---------- the hypotheses as one boolean check on a source scanner ---------- *)
+Fixpoint nodupb (l:list N) : bool :=
+  match l with [] => true | x :: r => negb (nmem x r) && nodupb r end.
+Lemma nodupb_ok l : nodupb l = true -> NoDup l.
+Proof.
+  induction l as [|x r IH]; cbn; [constructor|]. intros H. apply andb_true_iff in H as (H1 & H2).
+  constructor; [|apply IH; exact H2]. intros Hin. apply nmem_in in Hin. rewrite Hin in H1. discriminate.
+Qed.
+Definition mode_validb (m:src_mode) : bool :=
+  nodupb (map s_tok (s_pats m))
+  && forallb (fun p => alts_nonempty (s_ast p) && la_valid p) (s_pats m)
+  && mode_width_ok (pats_of (s_pats m)).
+Lemma mode_validb_ok m : mode_validb m = true -> mode_valid m.
+Proof.
+  unfold mode_validb, mode_valid. intros H. apply andb_true_iff in H as (H & H3). apply andb_true_iff in H as (H1 & H2).
+  split; [apply nodupb_ok; exact H1|]. split; [|exact H3].
+  intros p Hin. rewrite forallb_forall in H2. specialize (H2 p Hin). apply andb_true_iff in H2. exact H2.
+Qed.
+
+(* what a generated case file prints for one compiled mode: the automaton, terminal_ids, the
+   lookahead automata by token type, the transitions *)
+Definition enc_cmode (cm:cmode) : list (list N) * list N * list (N * (bool * list (list N))) * list (N * N) :=
+  (enc_dfa (main (aut cm)), tids (main (aut cm)),
+   map (fun e : N * (bool * dfa) => (fst e, (fst (snd e), enc_dfa (snd (snd e))))) (las (aut cm)),
+   map (fun e : N * nat => (fst e, N.of_nat (snd e))) (mtrans cm)).
+
+Definition capstone_check (l:list src_mode) :=
+  match build_scanner l, spec_of_scanner l with
+  | Some cms, Some sms =>
+      if forallb mode_validb l && forallb (fun cm => mode_okb (aut cm)) cms then Some (map enc_cmode cms) else None
+  | _, _ => None
+  end.
+
+(* a successful check: the source scanner compiles (in the model) to the automata whose encoding
+   is printed, and those automata scan as the specification does, for every class predicate,
+   every history and every iterator state *)
+Theorem capstone_check_sound l e : capstone_check l = Some e ->
+  exists cms sms, build_scanner l = Some cms /\ spec_of_scanner l = Some sms /\ e = map enc_cmode cms /\
+    forall tbl ops st, run_ops (impl_scanner tbl cms) st ops = run_ops (spec_scanner tbl sms) st ops.
+Proof.
+  unfold capstone_check. destruct (build_scanner l) as [cms|] eqn:Eb; [|discriminate].
+  destruct (spec_of_scanner l) as [sms|] eqn:Es; [|discriminate].
+  destruct (forallb mode_validb l && forallb (fun cm => mode_okb (aut cm)) cms) eqn:Ec; [|discriminate].
+  intros E; inversion E; subst e. apply andb_true_iff in Ec as (Hv & Hok). rewrite forallb_forall in Hv, Hok.
+  exists cms, sms. split; [reflexivity|]. split; [reflexivity|]. split; [reflexivity|].
+  intros tbl ops st. apply (compiled_scanner_is_specification tbl l cms sms Eb Es).
+  - intros m Hin. apply mode_validb_ok. apply Hv. exact Hin.
+  - exact Hok.
+Qed.
+Lemma ex_src_check : exists e, capstone_check ex_src = Some e /\ length e = 2.
+Proof. destruct (capstone_check ex_src) as [e|] eqn:E; [|vm_compute in E; discriminate]. exists e. split; [reflexivity|]. vm_compute in E. inversion E; reflexivity. Qed.
+Definition capstone_enc (l:list src_mode) :=
+  match capstone_check l with Some e => e | None => [] end.
